@@ -34,7 +34,7 @@ def plan(tier, seed):
     n = 360 if tier == "quick" else 4000
     for i in range(n):
         be = ("numpy", "c", "jax", "numpy")[i % 4]
-        specs.append({"klass": "random", "i": i, "backend": be, "fill": i >= 24, "remove_unused": i % 5 == 0, "alias": ENUM_ALIASES[(i // 4) % 2]})
+        specs.append({"klass": "random", "i": i, "backend": be, "fill": i >= 24, "remove_unused": i % 5 == 0, "alias": ENUM_ALIASES[(i // 4) % 2], "both_aliases": i % 6 == 1})
     for i in range(8 if tier == "quick" else 40):
         specs.append({"klass": "alias_direct", "i": i, "backend": "numpy"})
     for s in specs:
@@ -60,7 +60,7 @@ def run_case(spec, ctx):
     if spec["klass"] == "corpus":
         text = open(os.path.join(env.REPO, spec["file"])).read()
     else:
-        text = spec.get("text") or models.gen_model(rng, Profile(), depth=rng.choice([2, 3])).render(rng)
+        text = spec.get("text") or models.gen_model(rng, Profile(hard_lits=False), depth=rng.choice([2, 3])).render(rng)
     out["hash"] = models.structural_hash(text) + ":" + spec["backend"]
     try:
         ref = RefModel.from_text(text)
@@ -92,7 +92,8 @@ def run_case(spec, ctx):
                     continue
                 mods.append((al, B.open_module("numpy", code, ref)))
         else:
-            oc = B.generate(be, ode, schemes=[alias], remove_unused=rm)
+            both = bool(spec.get("both_aliases"))
+            oc = B.generate(be, ode, schemes=[alias] if not both else ENUM_ALIASES, remove_unused=rm)
             if not oc.ok:
                 if not B.generate(be, ode, schemes=None, remove_unused=rm).ok:
                     out.update(status="skipped", reason="module cannot be generated even without the scheme (C01-C03): " + oc.describe()[:120])
@@ -126,10 +127,14 @@ def run_case(spec, ctx):
                     m.close()
                     out.update(status="inconclusive", reason="driver build failed " + m.build_err[-200:])
                     return out
-            if not m.has(alias):
-                out["violations"].append({"kind": "function_not_named_by_alias", "detail": {"alias": alias, "functions": m.functions()[:12]}})
-            else:
-                mods.append((alias, m))
+            want_fns = [alias] if not both else list(ENUM_ALIASES)
+            if be == "c" and both and m.compile_errors:
+                pass
+            for wf in want_fns:
+                if not m.has(wf):
+                    out["violations"].append({"kind": "function_not_named_by_alias", "subkind": "both" if both else "single", "detail": {"alias": wf, "requested": want_fns, "functions": m.functions()[:12], "backend": be}})
+                else:
+                    mods.append((wf, m))
         pts, st = points.sample(ref, rng, want=6 if spec.get("tier") == "quick" else 12, max_draws=50)
         cn["points"] = st
         if len(pts) < 2:
@@ -213,7 +218,7 @@ def run_case(spec, ctx):
                     out["violations"].append({"kind": "ubsan", "detail": {"first": info.get("ubsan_first"), "backend": be}})
         out["nontrivial"] = cn.get("compared_with_own_rhs", 0) >= 4
     finally:
-        for _, m in mods:
+        for m in {id(m): m for _, m in mods}.values():
             m.close()
     if out["violations"]:
         out["status"] = "violated"
